@@ -1,6 +1,6 @@
 Require Import FastZ.
-From Dashu Require Import Base.Prelude Float.RoundSpec Float.Contract Float.Model Float.RoundOpsModel Ratio.RatRoundModel Float.RoundOpsDeep.
-From DashuGen Require Import RatioSmall RoundPrimGen.
+From Dashu Require Import Base.Prelude Float.RoundSpec Float.Contract Float.Model Float.RoundOpsModel Ratio.RatRoundModel Float.RoundOpsDeep Float.RoundAssertModel.
+From DashuGen Require Import RatioSmall RoundPrimGen RoundOpsGen.
 Extraction "model.ml" dlen spec_round round_fract round_ratio normalize repr_round
   int_spec is_int to_int_spec fract_sig_spec with_precision_spec flag_of_adj
   smaller_than_one split_internal trunc_asis fract_asis split_asis ceil_asis floor_asis round_asis
@@ -11,4 +11,7 @@ Extraction "model.ml" dlen spec_round round_fract round_ratio normalize repr_rou
   with_precision_full with_same_base_full with_precision_twice round_fract_debug round_ratio_pub round_ratio_pre
   rat_split_at_point_gen rat_ceil_gen rat_floor_gen rat_trunc_gen rat_fract_gen rat_round_gen
   round_fract_gen round_fract_pre_gen round_ratio_gen round_ratio_pre_gen smaller_than_one_gen round_to_zero_test_gen
-  round_low_part int_tiny to_int_tiny.
+  round_low_part int_tiny to_int_tiny
+  blen sat_mul fract_cheap round_fract_pre4 round_fract_debug4 round_ratio_pre4 round_ratio_pub4 round_fract_tiny round_fract_any4
+  round_fract_sz to_int_full4 bit_len_gen round_fract_chk4
+  trunc_gen split_at_point_gen fract_gen ceil_gen floor_gen round_gen to_int_gen repr_to_int_gen split_internal_gen.
